@@ -3,6 +3,10 @@ package main
 import (
 	"fmt"
 	"math/rand"
+	"os"
+	"path/filepath"
+	"strings"
+	"time"
 
 	"verif/harness/gen"
 	"verif/harness/ref"
@@ -204,6 +208,37 @@ func (c12) runOn(g *spec.Grammar, what string, injected bool, idx int) Outcome {
 	case !usable && b.RuntimeErr:
 		o.Status = "violated"
 		o.Detail = fmt.Sprintf("unusable grammar (%s: %s) refused by a runtime error instead of a diagnostic: %s\n%s\ngrammar:\n%s", what, why, b.Panic, trunc(b.Stack, 1200), text)
+	}
+	// CLI leg on a sample: the same verdict must come out of the real binary, as exit status + diagnostic
+	if o.Status == "held" && idx >= 0 && idx%40 == 7 {
+		dir := filepath.Join(scratch(), fmt.Sprintf("c12cli-%d-%d", os.Getpid(), idx))
+		os.MkdirAll(dir, 0755)
+		os.WriteFile(filepath.Join(dir, "g.y"), []byte(text), 0644)
+		args := []string{"generate", "go", "g.y", "out.go"}
+		if idx%80 == 7 {
+			args = []string{"generate", "typescript", "g.y", "out.ts"}
+		}
+		res := runCLI(20, 2*time.Minute, dir, args...)
+		_, statErr := os.Stat(filepath.Join(dir, args[len(args)-1]))
+		os.RemoveAll(dir)
+		o.count("eval:cli_runs", 1)
+		failed := res.Exit != 0 || strings.Contains(res.Out, "panic:")
+		switch {
+		case usable && (failed || statErr != nil):
+			o.Status = "violated"
+			o.Detail = fmt.Sprintf("CLI refuses a usable grammar (%s): exit %d, %s\ngrammar:\n%s", what, res.Exit, trunc(res.Out, 300), text)
+		case !usable && !failed:
+			o.Status = "violated"
+			o.Detail = fmt.Sprintf("CLI accepts an unusable grammar (%s: %s) with exit status 0\ngrammar:\n%s", what, why, text)
+		case !usable && strings.Contains(res.Out, "runtime error"):
+			o.Status = "violated"
+			o.Detail = fmt.Sprintf("CLI refuses an unusable grammar (%s: %s) with a runtime error instead of a diagnostic: %s\ngrammar:\n%s", what, why, trunc(res.Out, 400), text)
+		}
+		if !usable {
+			o.count("cli_refusals_with_diagnostic", 1)
+		} else {
+			o.count("cli_acceptances", 1)
+		}
 	}
 	if usable {
 		o.count("usable_accepted", 1)
